@@ -12,6 +12,10 @@ OptsFor(n) == {O("treatment", b, TRUE, FALSE, TRUE) : b \in 0..n} \cup {O("sas",
 ScoreSets(n) == { [i \in 1..n |-> <<i - 1, 1>>] } \cup (IF n <= 3 THEN { [i \in 1..n |-> <<i * i, 1>>] } ELSE {})
                 \cup (IF n <= 4 THEN { [i \in 1..n |-> C!Norm(2 * i - 3, 2)] } ELSE {})
 
+\* user-supplied coding matrices (integers), by number of levels
+IM(rows) == [i \in DOMAIN rows |-> [j \in DOMAIN rows[i] |-> <<rows[i][j], 1>>]]
+Customs == << [n |-> 2, m |-> IM(<< <<1>>, <<-1>> >>)], [n |-> 3, m |-> IM(<< <<1, 0>>, <<0, 1>>, <<-1, -1>> >>)], [n |-> 3, m |-> IM(<< <<1>>, <<2>>, <<3>> >>)],
+              [n |-> 2, m |-> IM(<< <<1, 2>>, <<3, 4>> >>)], [n |-> 3, m |-> IM(<< <<2, 0, 0>>, <<0, 2, 0>>, <<0, 0, 2>> >>)] >>
 VARIABLES kind, n, o, scores, li
 vars == <<kind, n, o, scores, li>>
 
@@ -25,10 +29,12 @@ EmitCase == Emit =>
   CASE kind = "matrix" -> CSVWrite("%1$s", <<ToJson([kind |-> kind, n |-> n, o |-> o, coding |-> C!Coding(o, n), interp |-> C!Interp(o, n),
                                       collevels |-> [j \in 1..(n - 1) |-> C!ColLevel(o, n, j)], drop |-> C!DropLevel(o, n), prefix |-> C!Prefix(o)])>>, Out)
     [] kind = "poly" -> CSVWrite("%1$s", <<ToJson([kind |-> kind, n |-> Len(scores), scores |-> scores, monic |-> C!PolyMonic(scores), norm2 |-> C!PolyNorm2(scores)])>>, Out)
+    [] kind = "custom" -> CSVWrite("%1$s", <<ToJson([kind |-> kind, n |-> Customs[n].n, mi |-> n, m |-> Customs[n].m, li |-> li, enc |-> C!EncodeCustom(Customs[n].m, li)])>>, Out)
     [] kind = "encode" -> CSVWrite("%1$s", <<ToJson([kind |-> kind, n |-> n, o |-> o, li |-> li, reduced |-> C!EncodeReduced(o, n, li), full |-> C!EncodeFull(n, li),
                                       collevels |-> [j \in 1..(n - 1) |-> C!ColLevel(o, n, j)], prefix |-> C!Prefix(o)])>>, Out)
 
-Init == \/ /\ kind = "matrix" /\ n \in 1..MaxN /\ o \in OptsFor(n) /\ scores = <<>> /\ li = <<>>
+Init == \/ /\ kind = "custom" /\ n \in DOMAIN Customs /\ o = O("custom", 0, TRUE, FALSE, TRUE) /\ scores = <<>> /\ li \in UNION {[1..m -> 0..Customs[n].n] : m \in 1..3}
+        \/ /\ kind = "matrix" /\ n \in 1..MaxN /\ o \in OptsFor(n) /\ scores = <<>> /\ li = <<>>
         \/ /\ kind = "poly" /\ n \in 2..MaxPolyN /\ scores \in ScoreSets(n) /\ o = O("poly", 0, TRUE, FALSE, TRUE) /\ li = <<>>
         \/ /\ kind = "encode" /\ n \in 1..3 /\ o \in OptsFor(n) /\ scores = <<>> /\ li \in UNION {[1..m -> 0..n] : m \in 1..3}
 Next == UNCHANGED vars
